@@ -182,13 +182,13 @@ func main() {
 
 	// ---- every order of short multisets
 	bases := handBases()
-	nSeeded := lib.Pick(6, 20)
+	nSeeded := lib.Pick(6, 16)
 	seededLen := lib.Pick(6, 8)
 	for b := 0; b < nSeeded; b++ {
 		bases = append(bases, seededBase(lib.Rand("c15-permbase", int64(b)), seededLen))
 	}
-	if lib.Thorough() { // two longer ones
-		bases = append(bases, seededBase(lib.Rand("c15-permbase-long", 0), 9), seededBase(lib.Rand("c15-permbase-long", 1), 9))
+	if lib.Thorough() { // one longer multiset: 9! orders
+		bases = append(bases, seededBase(lib.Rand("c15-permbase-long", 0), 9))
 	}
 	type permTask struct {
 		base     int
@@ -226,7 +226,7 @@ func main() {
 	stage("permutations")
 
 	// ---- seeded random streams
-	nStreams := int64(lib.Pick(32000, 2000000))
+	nStreams := int64(lib.Pick(32000, 1500000))
 	tamperEvery := int64(lib.Pick(2, 8))
 	nb := int((nStreams + batch - 1) / batch)
 	lib.Parallel(nb, workers, func(bi int) {
